@@ -13,3 +13,10 @@ let cmd_transport (_p : string) (arg : string) (impl : string) : string * string
     else if starts_with "dead-handle" arg then "error"
     else "intact-once-in-order" in
   (expect, if impl = "" then "-" else if impl = expect then "ok" else "FAIL:C19:" ^ (String.map (fun c -> if c = ' ' then '-' else c) (String.sub impl 0 (min 60 (String.length impl)))))
+
+(* C18 through the builder API: wherever the stop handle was supplied, clearing it (or kill) makes the
+   run return success, the transport is closed once and the handle's reference is given back *)
+let cmd_apiorder (_p : string) (_arg : string) (impl : string) : string * string =
+  let expect = "returned-ok closed=1 strong=1" in
+  (expect, if impl = "" then "-" else if impl = expect then "ok"
+    else "FAIL:C18:" ^ (String.map (fun c -> if c = ' ' then '-' else c) (String.sub impl 0 (min 60 (String.length impl)))))
